@@ -41,9 +41,8 @@ def _digest_of(node):
 
 
 def _add_terms(node):
-    if isinstance(node, ast.BinOp) and isinstance(node.op, ast.Add):
-        return _add_terms(node.left) + _add_terms(node.right)
-    return [node]
+    from ..astutil import concat_terms
+    return concat_terms(node)
 
 
 def r1(tree, rep):
@@ -183,19 +182,17 @@ def r4_r5(tree, prog, rep):
     rx = M.methods.get("rx_message")
     if rx is None:
         raise AnalysisError("Mailbox.rx_message not found")
-    ifs = [n for n in ast.walk(rx) if isinstance(n, ast.If)]
-    ok = False
-    if len(ifs) == 1:
-        t = ifs[0].test
-        cmp_ok = isinstance(t, ast.Compare) and len(t.ops) == 1 and isinstance(t.ops[0], (ast.Eq, ast.NotEq)) and (
-            (isinstance(t.left, ast.Name) and t.left.id == "side" and is_self_attr(t.comparators[0], "_side")) or
-            (is_self_attr(t.left, "_side") and isinstance(t.comparators[0], ast.Name) and t.comparators[0].id == "side"))
-        if cmp_ok:
-            eq = isinstance(t.ops[0], ast.Eq)
-            ours_b, theirs_b = (ifs[0].body, ifs[0].orelse) if eq else (ifs[0].orelse, ifs[0].body)
-            ours = [dotted(c.func) for s in ours_b for c in ast.walk(s) if isinstance(c, ast.Call) and (dotted(c.func) or "").startswith("self.")]
-            theirs = [dotted(c.func) for s in theirs_b for c in ast.walk(s) if isinstance(c, ast.Call) and (dotted(c.func) or "").startswith("self.")]
-            ok = ours == ["self.rx_message_ours"] and theirs == ["self.rx_message_theirs"] and "side" in params(rx) and not local_defs(rx, "side")
+    from ..cfg import build as _build, cmp_atom, truth_on_branch
+    g = _build(rx)
+    same_side = cmp_atom(lambda e: isinstance(e, ast.Name) and e.id == "side", lambda e: is_self_attr(e, "_side"))
+    ours_n = g.call_nodes(lambda c: dotted(c.func) == "self.rx_message_ours")
+    theirs_n = g.call_nodes(lambda c: dotted(c.func) == "self.rx_message_theirs")
+    selfcalls = [dotted(c.func) for c in ast.walk(rx) if isinstance(c, ast.Call) and (dotted(c.func) or "").startswith("self.")]
+    tests = [n.test for n in ast.walk(rx) if isinstance(n, (ast.If, ast.While, ast.IfExp))]
+    ok = (len(ours_n) == 1 and len(theirs_n) == 1 and sorted(selfcalls) == ["self.rx_message_ours", "self.rx_message_theirs"]
+          and bool(tests) and all(None not in truth_on_branch(t, same_side) for t in tests)
+          and not g.only_when(ours_n, same_side, True) and not g.only_when(theirs_n, same_side, False)
+          and "side" in params(rx) and not local_defs(rx, "side"))
     rep.check("C02.R4", "Mailbox.rx_message: side == self._side (and nothing else) decides echo vs. peer message", ok,
               site(rx, M.file), key="C02.R4:Mailbox.rx_message",
               what="a message carrying our own side can be treated as a peer message (reflection), or the test is not a plain side comparison")
